@@ -152,10 +152,17 @@ def false_loop_design(draw):
   # every block also publishes a plain signal computed from the input only, read by the next block: a second,
   # loop-free carrier for the same block-to-block edges
   side = draw(st.booleans())
+  # side2: the second carrier is wider, written as a whole from a second input (in1) and read through a slice: only
+  # that carrier moves when in1 alone changes
+  side2 = side and draw(st.booleans())
+  qw = w + 2 if side2 else w
+  if side2:
+    top["ports"].append(["in1", "in", ["b", qw]])
   if side:
     for b in range(nb):
-      top["wires"].append([f"q{b}", ["b", w]])
-      blocks[b].append(["assign", R(f"q{b}"), ["inv", ["sig", R("in0")]] if b % 2 else ["sig", R("in0")]])
+      top["wires"].append([f"q{b}", ["b", qw]])
+      src = ["sig", R("in1")] if side2 else ["sig", R("in0")]
+      blocks[b].append(["assign", R(f"q{b}"), ["inv", src] if b % 2 else src])
   for j in range(ns):
     prev = ["sig", R("in0")] if j == 0 else ["sig", refs[j - 1]]
     if j > 0 and refs[j - 1]["sl"] is not None and draw(st.integers(0, 2)) == 0:
@@ -166,7 +173,11 @@ def false_loop_design(draw):
       whole = ["sig", owner]
       prev = ["trunc", ["shr", whole, ["const", tw, lo]], w] if tw > w else whole
     if side and j > 0 and draw(st.booleans()):
-      prev = ["bin", "^", prev, ["sig", R(f"q{(j - 1) % nb}")]]
+      if side2:
+        lo = draw(st.integers(0, 2))
+        prev = ["bin", "^", prev, ["sig", R(f"q{(j - 1) % nb}", sl=[lo, lo + w])]]
+      else:
+        prev = ["bin", "^", prev, ["sig", R(f"q{(j - 1) % nb}")]]
     if j > 0 and draw(st.integers(0, 4)) == 0:
       nn = f"n{j}"
       top["wires"].append([nn, ["b", w]])
@@ -184,13 +195,51 @@ def false_loop_design(draw):
 
 
 @st.composite
+def long_false_ring(draw):
+  """a ring of 10-14 blocks, each with an if/else, in which every stage shifts the ring value left by s bits of a
+  w-bit path with nb*s > w: the block graph is one big cycle, no bit depends on itself (a false loop).  Large cyclic
+  groups take their own code path in the Mamba pass (it splits them into sub-groups by branchiness)."""
+  nb = draw(st.integers(10, 14))
+  w = draw(st.sampled_from([8, 12, 16]))
+  sh = draw(st.integers(max(1, w // nb + 1), 4))
+  inw = draw(st.integers(2, 4))
+  top = {"ports": [["in0", "in", ["b", inw]]], "wires": [], "children": [], "conns": [], "blocks": [], "uu": []}
+  ine = ["zext", ["sig", R("in0")], w]
+  plain = draw(st.sets(st.integers(0, nb - 1), max_size=3))          # a few branch-free stages in between
+  for b in range(nb):
+    top["wires"].append([f"r{b}", ["b", w]])
+  for b in range(nb):
+    prev = ["shl", ["sig", R(f"r{(b - 1) % nb}")], ["const", w, sh]]
+    c1 = ["const", w, draw(st.integers(0, (1 << sh) - 1))]
+    e1 = ["bin", "|", prev, c1]
+    e2 = ["bin", "^", prev, ["bin", "&", ine, ["const", w, (1 << sh) - 1]]]
+    if b in plain:
+      stmts = [["assign", R(f"r{b}"), e1 if draw(st.booleans()) else e2]]
+    else:
+      cond = ["bit", R("in0"), ["lit", draw(st.integers(0, inw - 1))]]
+      stmts = [["if", cond, [["assign", R(f"r{b}"), e1]], [["assign", R(f"r{b}"), e2]]]]
+    top["blocks"].append({"name": f"fb{b}", "kind": "comb", "stmts": stmts})
+  top["ports"].append(["obs", "out", ["b", w]])
+  top["blocks"].append({"name": "observer", "kind": "comb", "stmts": [["assign", R("obs"), ["sig", R(f"r{nb - 1}")]]]})
+  return {"classes": {"Top": top}, "top": "Top"}, {"family": "false", "k": nb, "w": w, "stages": nb, "long": True}
+
+
+@st.composite
 def cases(draw):
-  if draw(st.booleans()):
+  if draw(st.integers(0, 7)) == 0:
+    design, meta = draw(long_false_ring())
+  elif draw(st.booleans()):
     design, meta = draw(false_loop_design())
   else:
     design, meta = draw(ring_design())
-  inw = type_width(design["classes"]["Top"]["ports"][0][2])
-  seq = [{"in": {"in0": draw(uvalue(inw))}, "reset": 0} for _ in range(draw(st.integers(2, 4)))]
+  ins = [(n, type_width(t)) for n, dr, t in design["classes"]["Top"]["ports"] if dr == "in"]
+  seq = []
+  for c in range(draw(st.integers(2, 5) if len(ins) > 1 else st.integers(2, 4))):
+    cur = {n: draw(uvalue(w_)) for n, w_ in ins}
+    if seq and len(ins) > 1 and draw(st.booleans()):
+      keep = draw(st.sampled_from([n for n, _ in ins]))        # only the other input changes in this cycle
+      cur[keep] = seq[-1]["in"][keep]
+    seq.append({"in": cur, "reset": 0})
   seeds = draw(st.lists(st.integers(0, 2 ** 20), min_size=2, max_size=2))
   return {"design": design, "meta": meta, "seq": seq, "seeds": seeds}
 
